@@ -159,6 +159,11 @@ def run(ctx):
     if not seen:
         ctx.bad('BaseManager.basic_disconnect', 'no-unmark', 'no path '
                 'both leaves the rooms and drops the mark', where(f))
+    ctx.rule('C11.R1', 'no trace remains: per-transport tables released on '
+             'every path of the threaded _handle_eio_disconnect (shared '
+             'rule)', floor=2)
+    from .c11 import r1_transport_tables
+    r1_transport_tables(ctx, 'sync')
     ctx.rule('C20.R3', 'pending_disconnect is read and written only by '
              'BaseManager.is_connected / pre_disconnect / basic_disconnect',
              floor=5)
